@@ -13,6 +13,11 @@ ASSUMPTIONS = ["HashMap<u32,Plane> is modelled as an association list with uniqu
 AP = [0, 4, 5, 16, 20, 21]
 
 
+def sqgen_ac13(r):
+    """a 13-bit altitude code with M=0, Q=1 (25 ft steps)"""
+    return (r.getrandbits(13) | 0x10) & ~0x40
+
+
 def gen(seed, tier):
     g = Gen(seed * 1000003 + 3)
     r = g.r
@@ -74,6 +79,17 @@ def gen(seed, tier):
         o.pop("d", None)
         segs = [seg(0, [g.any_frame(r.choice(pool))]) for _ in range(r.randint(2, 9))]
         cases.append(H("C03-h%d" % i, o, segs))
+    # the same 32 data bits from different aircraft in direct succession (the same flight level or squawk heard from two
+    # aircraft): each frame still belongs to the address its parity gives, in one reader run and as first frames
+    for i in range(24 if tier == "quick" else 240):
+        pool = r.sample(ICAOS, r.randint(2, 4))
+        df = r.choice([0, 4, 5, 4, 5])
+        f27 = r.getrandbits(27) if df == 0 else ((r.getrandbits(14) << 13) | (r.choice([sqgen_ac13(r), r.getrandbits(13)])))
+        lines = [hx(short_ap(df, a, f27), 56) for a in pool]
+        if r.random() < 0.5:
+            lines = lines + lines[::-1]
+        o = {"U": 1} if i % 2 else {}
+        cases.append(H("C03-xs%d" % i, o, [seg(0, lines), seg(0, [g.any_frame(pool[0])])]))
     # isolation under extreme (legal) --delete-after values, with enough frames for the expiry sweep to run several times:
     # no row of another aircraft may vanish or change
     for i, d in enumerate([9223372036854775807, 10000000000000, 1000000000000, 8300000000000, 4294967296, -1 + 2 ** 31, 2 ** 31, 86400 * 365 * 1000]):
